@@ -10,6 +10,7 @@ One output line per input line:  M<TAB>S<TAB>G<TAB>T
 import DtailModel.Model.Hex
 import DtailModel.Model.Wire
 import DtailModel.Model.Grep
+import DtailModel.Model.Discovery
 open Dtail
 
 structure Res where
@@ -118,6 +119,44 @@ def opC03E2E (a : List String) : Res :=
       t := c03tags B A M lsSpec out.length }
   | none => bad
 
+/-! C18 -/
+
+def natList (s : String) : Option (List Nat) :=
+  if s = "-" then some [] else (s.splitOn ",").mapM (·.toNat?)
+
+def renderServers (o : Option (List Bytes)) : String :=
+  match o with
+  | none => "PANIC index out of range"
+  | some [] => "none"
+  | some l => joinWith "," (l.map hexOf)
+
+def sortBytes (l : List Bytes) : List Bytes :=
+  (l.toArray.qsort (fun a b => compare a b == .lt)).toList
+
+def c18res (entries : List Bytes) (filter : Option (Bytes → Bool)) (rs : List Nat) : Res :=
+  let w := wanted entries filter
+  let d := dedup [] w
+  { m := renderServers (serverList entries filter rs),
+    s := renderServers (some (sortBytes d)),
+    t := joinWith "," ((if d.length < w.length then ["dups"] else []) ++ (if d.length > 1 then ["multi"] else [])
+        ++ (if filter.isSome then ["filter"] else []) ++ (if entries.length ≥ 100 then ["large"] else [])) }
+
+def opC18List : List String → Res
+  | [srv, idx, bit] => match unhex srv, natList idx with
+    | some srv, some rs =>
+      if srv.length ≥ 2 ∧ srv.head? = some 47 ∧ srv.getLast? = some 47 then
+        -- initRegex: the server argument becomes the filter and the list source is emptied
+        c18res (splitOnByte COMMA []) (some (fun _ => bit = "1")) rs
+      else c18res (splitOnByte COMMA srv) none rs
+    | _, _ => bad
+  | _ => bad
+
+def opC18File : List String → Res
+  | [c, idx, _] => match unhex c, natList idx with
+    | some c, some rs => c18res (scanLines c) none rs
+    | _, _ => bad
+  | _ => bad
+
 def dispatch (line : String) : Res :=
   match (line.splitOn " ").filter (· ≠ "") with
   | "c01.reader" :: a => opC01Reader a
@@ -125,6 +164,8 @@ def dispatch (line : String) : Res :=
   | "c01.e2e" :: a => opC01E2E a
   | "c03.grep" :: a => opC03Grep a
   | "c03.e2e" :: a => opC03E2E a
+  | "c18.list" :: a => opC18List a
+  | "c18.file" :: a => opC18File a
   | _ => bad
 
 partial def loop (h : IO.FS.Stream) (out : IO.FS.Stream) : IO Unit := do
